@@ -44,6 +44,7 @@ type built struct {
 	cs        counters.CounterStyle
 	footnotes *[]bo.Box
 	ids       map[*html.Node]int
+	dispNone  map[*html.Node]bool // computed display:none, read right after the cascade, BEFORE any box is built (box building may rewrite styles)
 	nodes     []*html.Node
 }
 
@@ -60,12 +61,15 @@ func parse(src string) (*built, error) {
 		return images.GetImageFromUri(cache, doc.UrlFetcher, false, url, forcedMimeType, orientation)
 	}
 	b := &built{root: doc.Root, styleFor: sf, resolver: bo.URLResolver{Fetch: doc.UrlFetcher, FetchImage: fetch},
-		base: doc.BaseUrl, tc: &tc, cs: cs, footnotes: new([]bo.Box), ids: map[*html.Node]int{}}
+		base: doc.BaseUrl, tc: &tc, cs: cs, footnotes: new([]bo.Box), ids: map[*html.Node]int{}, dispNone: map[*html.Node]bool{}}
 	var walk func(n *html.Node)
 	walk = func(n *html.Node) {
 		if n.Type == html.ElementNode {
 			b.ids[n] = len(b.nodes)
 			b.nodes = append(b.nodes, n)
+			if st := sf.Get((*utils.HTMLNode)(n), ""); st != nil && st.GetDisplay() == (pr.Display{"none"}) {
+				b.dispNone[n] = true
+			}
 		}
 		for c := n.FirstChild; c != nil; c = c.NextSibling {
 			walk(c)
@@ -358,11 +362,10 @@ func (g *gen) style() string {
 		parts = append(parts, "display:"+rng.Pick(r, displays...))
 	}
 	if r.P(1, 5) {
-		fs := []string{"left", "right", "none", "left"}
-		if g.wide {
-			fs = append(fs, "footnote")
+		parts = append(parts, "float:"+rng.Pick(r, "left", "right", "none", "left", "footnote"))
+		if r.P(1, 3) {
+			parts = append(parts, "footnote-display:"+rng.Pick(r, "block", "inline", "compact"))
 		}
-		parts = append(parts, "float:"+rng.Pick(r, fs...))
 	}
 	if r.P(1, 5) {
 		ps := []string{"relative", "absolute", "fixed", "static", "absolute"}
@@ -534,6 +537,71 @@ func genDoc(r *rng.R, wide bool) string {
 		htmlStyle = fmt.Sprintf(` style="display:%s"`, rng.Pick(r, "table", "flex", "grid", "inline", "table-cell", "inline-table", "list-item", "none"))
 	}
 	return fmt.Sprintf("<html%s><style>%s</style><body%s>%s</body></html>", htmlStyle, strings.Join(g.css, "\n"), bodyStyle, body.String())
+}
+
+// genHiddenDoc: display:none crossed with every float / position / footnote-display value, on elements of
+// every kind (list items, table parts, replaced elements with children), with content in all five
+// pseudo-elements, hidden ancestors of footnotes and of running elements, and visible controls.
+func genHiddenDoc(r *rng.R) string {
+	floats := []string{"none", "left", "right", "footnote"}
+	positions := []string{"static", "relative", "absolute", "fixed", "running(hd)"}
+	fdisps := []string{"", "block", "inline", "compact"}
+	var css []string
+	var body strings.Builder
+	n := r.Range(1, 4)
+	for i := 0; i < n; i++ {
+		id := fmt.Sprintf("h%d", i)
+		hidden := r.P(3, 4)
+		disp := "none"
+		if !hidden {
+			disp = rng.Pick(r, displays...)
+		}
+		st := fmt.Sprintf("display:%s;float:%s;position:%s", disp, rng.Pick(r, floats...), rng.Pick(r, positions...))
+		if fd := rng.Pick(r, fdisps...); fd != "" {
+			st += ";footnote-display:" + fd
+		}
+		if r.P(1, 3) {
+			st += ";list-style-position:" + rng.Pick(r, "inside", "outside")
+		}
+		for _, ps := range []string{"before", "after", "marker", "footnote-call", "footnote-marker"} {
+			if r.P(1, 2) {
+				extra := ""
+				if r.P(1, 3) {
+					extra = ";display:" + rng.Pick(r, "block", "inline", "table-cell", "list-item", "inline-block")
+				}
+				css = append(css, fmt.Sprintf("#%s::%s{content:%s%s}", id, ps, rng.Pick(r, `"x"`, `"p q"`, `counter(footnote)`, `" "`), extra))
+			}
+		}
+		inner := func() string {
+			switch r.Intn(7) {
+			case 0:
+				return "t"
+			case 1:
+				return fmt.Sprintf(`<span style="float:footnote;footnote-display:%s">fn<b>x</b></span>`, rng.Pick(r, "block", "inline", "compact"))
+			case 2:
+				return `<p style="position:running(hd)">run<i>y</i></p>`
+			case 3:
+				return `a<div style="display:table-cell">c</div><li>item</li>`
+			case 4:
+				return fmt.Sprintf(`<object data="%s"><p>fallback<b style="float:footnote">f</b></p></object>`, svgURI)
+			case 5:
+				return `<svg width="4" height="4"><g><text>s</text></g></svg><span style="display:none;float:footnote">hf</span>`
+			}
+			return `<div style="float:left">f<span style="position:absolute">a</span></div>`
+		}
+		switch tag := rng.Pick(r, "div", "span", "li", "p", "td", "img", "object", "section"); tag {
+		case "img":
+			fmt.Fprintf(&body, `<img id="%s" src="%s" style="%s">`, id, svgURI, st)
+		case "object":
+			fmt.Fprintf(&body, `<object id="%s" data="%s" style="%s">%s</object>`, id, svgURI, st, inner())
+		case "td":
+			fmt.Fprintf(&body, `<table><tr><td id="%s" style="%s">%s</td><td>v</td></tr></table>`, id, st, inner())
+		default:
+			fmt.Fprintf(&body, `<%s id="%s" style="%s">%s%s</%s>`, tag, id, st, inner(), inner(), tag)
+		}
+		body.WriteString(rng.Pick(r, "", " ", "v"))
+	}
+	return fmt.Sprintf("<html><style>%s</style><body>%s</body></html>", strings.Join(css, "\n"), body.String())
 }
 
 // genGridDoc: a plain table with many rows/cells and dense spans (the grid-slot assignment of wrapTable).
@@ -748,7 +816,7 @@ func (rn *runner) one(src string, seed uint64) error {
 		var walkB func(x bo.Box)
 		walkB = func(x bo.Box) {
 			f := x.Box()
-			if f.Element != nil && f.IsRunning() && bo.InlineT.IsInstance(x) {
+			if f.Element != nil && f.PseudoType == "" && f.IsRunning() && bo.InlineT.IsInstance(x) { // principal boxes only: a running pseudo-element has no DOM descendants
 				runningInline[f.Element] = true
 			}
 			for _, c := range f.Children {
@@ -829,44 +897,64 @@ func nodeName(b *built, el int) string {
 // box have no box.
 func (rn *runner) judgeDOM(src string, seed uint64, b *built, root bo.Box) {
 	boxesOf := map[*html.Node][]bo.Box{}
+	whereOf := map[*html.Node]string{}
 	replaced := map[*html.Node]bool{}
-	var walkB func(x bo.Box)
-	walkB = func(x bo.Box) {
+	seen := map[bo.Box]bool{}
+	var walkB func(x bo.Box, where string)
+	walkB = func(x bo.Box, where string) {
+		if x == nil || seen[x] {
+			return
+		}
+		seen[x] = true
 		f := x.Box()
 		if f.Element != nil {
 			boxesOf[f.Element] = append(boxesOf[f.Element], x)
+			if _, ok := whereOf[f.Element]; !ok {
+				whereOf[f.Element] = where
+			}
 			if bo.ReplacedT.IsInstance(x) {
 				replaced[f.Element] = true
 			}
 		}
 		for _, c := range f.Children {
-			walkB(c)
+			walkB(c, where)
 		}
 		if t, ok := x.(bo.TableBoxITF); ok {
 			for _, g := range t.Table().ColumnGroups {
-				walkB(g)
+				walkB(g, where)
 			}
 		}
+		if f.Footnote != nil { // the footnote body hangs off its ::footnote-call box
+			rn.out.Hit("dom:footnote-call")
+			walkB(f.Footnote, "footnote of a ::footnote-call box")
+		}
 	}
-	walkB(root)
+	walkB(root, "box tree")
+	// out-of-tree list: the footnotes collected for the page/root
+	if b.footnotes != nil {
+		for _, fb := range *b.footnotes {
+			rn.out.Hit("dom:footnote-collected")
+			walkB(fb, "footnotes list")
+		}
+	}
 	rootNode := (*html.Node)(b.root)
 	var walk func(n *html.Node, hidden, inReplaced bool)
 	walk = func(n *html.Node, hidden, inReplaced bool) {
 		if n.Type != html.ElementNode {
 			return
 		}
-		if n != rootNode { // the root is forced to display:block by BuildFormattingStructure when it is none
-			st := b.styleFor.Get((*utils.HTMLNode)(n), "")
-			if st != nil && st.GetDisplay() == (pr.Display{"none"}) {
-				hidden = true
-			}
+		if n != rootNode && b.dispNone[n] { // the root is forced to display:block by BuildFormattingStructure when it is none
+			hidden = true
 		}
 		if (hidden || inReplaced) && len(boxesOf[n]) > 0 {
 			why := "element inside a display:none subtree generated a box"
 			if !hidden {
 				why = "descendant of a replaced element generated a box"
 			}
-			rn.out.Add(res.Finding{Kind: "judge", Op: "judge:dom", Input: src, Impl: fmt.Sprintf("<%s> (element %d): %s", n.Data, b.ids[n], boxesOf[n][0].Type()), Reason: why, Key: why, Seed: seed})
+			x := boxesOf[n][0]
+			rn.out.Add(res.Finding{Kind: "judge", Op: "judge:dom", Input: src,
+				Impl:   fmt.Sprintf("<%s> (element %d): %d box(es), first %s pseudo=%q in the %s", n.Data, b.ids[n], len(boxesOf[n]), x.Type(), x.Box().PseudoType, whereOf[n]),
+				Reason: why, Key: why, Seed: seed})
 		}
 		if hidden {
 			rn.out.Hit("dom:hidden-element")
@@ -920,6 +1008,8 @@ var corpus = []string{
 	`<body><table><tr><td>a<td rowspan=2>b<tr><td colspan=2>c</table></body>`,                 // KF09-1
 	`<body><span style="position:running(hd)">a<div>b</div>c</span>d</body>`,                  // fixed KF09-2 (regression)
 	`<style>@page{@top-center{content:element(hd)}}</style><body><span style="position:running(hd)">a<div>b<b>x</b></div>c</span>d</body>`, // fixed KF09-2 (regression)
+	`<body><div style="display:none;float:footnote">hidden<b>x</b></div>v</body>`, // seeded m3
+	`<style>#a::footnote-marker{content:"m"}#a::footnote-call{content:"c"}</style><body><p>v<span id=a style="display:none;float:footnote;footnote-display:block">h</span></p><li style="float:footnote">item</li><div style="display:none"><span style="float:footnote">f</span><p style="position:running(hd)">r</p></div></body>`,
 	`<body><table><colgroup span=2><col span=3><thead><tr><td>a<tfoot><tr><td>b<tbody><tr><td>c<thead><tr><td>d</table></body>`,
 }
 
@@ -935,7 +1025,7 @@ func Run(tier string, seed uint64, modelPath, repo string, out *res.Result) erro
 	out.Rule = "random HTML documents: 1-3 top-level items, <= ~10 elements, depth <= 4; every element gets display from the 20 values makeBox supports + none " +
 		"(mis-nested table parts on purpose), float, position (absolute/fixed/relative, running() in 1/4 of the documents), white-space, caption-side, " +
 		"colspan/rowspan/span attributes (valid, 0, negative, junk) on any element; real <table> markup with thead/tfoot/colgroup/col; ::before/::after/::marker with any display; " +
-		"list items; replaced elements (img/object/svg); float:footnote (rare); mixed text (blank, spaces, newlines); every 10th document is a plain table with up to 3 groups x 6 rows x 6 cells and dense colspan 0-4 / rowspan 0-5 (grid-slot assignment). Each document: L1 five passes vs model stage by stage, " +
+		"list items; replaced elements (img/object/svg); float:footnote (rare); mixed text (blank, spaces, newlines); every 10th document crosses display:none with every float (incl. footnote) / position (incl. running) / footnote-display value on list items, table parts, replaced elements with children, with content in ::before/::after/::marker/::footnote-call/::footnote-marker and hidden ancestors of footnotes and running elements (the DOM judge also walks the footnotes list and the footnote bodies hanging off ::footnote-call boxes; display:none is read from the cascade before any box is built); every 10th document is a plain table with up to 3 groups x 6 rows x 6 cells and dense colspan 0-4 / rowspan 0-5 (grid-slot assignment). Each document: L1 five passes vs model stage by stage, " +
 		"L2 BuildFormattingStructure judged by WF and against the DOM. non-trivial = raw tree contains a table-part/flex/grid box or a block inside an inline; distinct by source text. " +
 		"thorough adds the exhaustive family of <=3 nested/sibling elements x 17 display values."
 	if err := runLattice(m, out); err != nil {
@@ -975,6 +1065,9 @@ func Run(tier string, seed uint64, modelPath, repo string, out *res.Result) erro
 		if i%10 == 9 {
 			src = genGridDoc(cr)
 			out.Hit("stream:grid")
+		} else if i%10 == 4 {
+			src = genHiddenDoc(cr)
+			out.Hit("stream:hidden")
 		} else {
 			src = genDoc(cr, i%4 == 0)
 		}
